@@ -167,7 +167,8 @@ pub fn run_case(case: &Case, name: &str) -> Outcome {
         let pre = ind_eth_preimage(&text);
         let hash = ind_keccak(&pre);
         let o_sig = ind_hex_decode(&op.eth_sig);
-        let o_addr = if op.eth_address.len() >= 2 && op.eth_address.is_char_boundary(2) { ind_hex_decode(&op.eth_address[2..]) } else { ind_hex_decode("") };
+        let ab = op.eth_address.as_bytes();
+        let o_addr = ind_hex_decode_bytes(&ab[ab.len().min(2)..]);
         let rs: Option<Vec<u8>> = o_sig.as_ref().filter(|s| !s.is_empty()).map(|s| s[..s.len() - 1].to_vec());
         let (rec0, rec1) = match &rs {
             Some(rs) if rs.len() == 64 => (ind_recover(&hash, rs, 0), ind_recover(&hash, rs, 1)),
